@@ -7,6 +7,7 @@ import PandoraModel.Properties.C13Refinement
 import PandoraModel.Properties.C13CrossCheck
 import PandoraModel.Properties.C13MatchingCost
 import PandoraModel.Properties.C13Pipeline
+import PandoraModel.Properties.C13Cbca
 open Pandora.C13
 #print axioms Local.comp
 #print axioms Local.pair
@@ -74,3 +75,18 @@ open Pandora.C13
 #print axioms bilateralStage_local
 #print axioms ccOn_local
 #print axioms ccOn_equivariant
+#print axioms aggOut_eq_aggSpec
+#print axioms region_transport
+#print axioms armCoded_transport
+#print axioms crossSupport_le_bound
+#print axioms crossSupport_horizontal_transport
+#print axioms crossSupport_vertical_transport
+#print axioms median3_transport
+#print axioms filteredL_transport
+#print axioms filteredR_transport
+#print axioms crossL_horizontal
+#print axioms crossL_vertical
+#print axioms crossR_horizontal
+#print axioms crossR_vertical
+#print axioms rightCol_transport
+#print axioms cbca_crop_eq_whole
